@@ -5,6 +5,9 @@ cd /verif
 mkdir -p bin evidence .cache
 for d in checks/*/; do
   n=$(basename "$d")
+  if [ -f "$d/run.sh" ]; then
+    continue # checks with their own runner instrument /repo and build themselves on every run
+  fi
   if [ -f "$d/main.go" ]; then
     go build -o "bin/$n" "./checks/$n" || echo "setup: build of $n failed" >&2
   fi
